@@ -146,6 +146,8 @@ type Exec struct {
 	usedTypeInv    map[string]bool
 	reqNode        *LogNode
 	extraDecls     string
+	initRecord     map[string][]mapUpd
+	initMode       bool
 }
 
 type endState struct {
